@@ -88,9 +88,36 @@ def closing_test(ctx, g):
         ctx.ob("T3-closing-test", b.name, "glue<-good", "ok" if okg else "violation", "glue() runs only when the test holds (or the facet is a seed without a ridge)" if okg else "glue() is not dominated by `good`")
 
 
+def sentinel_not_unwrapped(ctx, g):
+    """Boundary marks a ridge chain that ends at an already glued mirror with the sentinel ridge (0, 0, 0); chamber 0 does not exist, so
+    ds.op(k, 0) is None.  A chamber that is read OUT OF the opposite map may be that sentinel: ds.op(k, e) of such a chamber may only be
+    compared (== / != Some(e)), never unwrapped (unless a dominating test excludes e == 0)."""
+    ctx.clauses.append("chambers read out of the ridge map may be the sentinel 0: ds.op of them is compared, never unwrapped (T5)")
+    n = 0
+    for name in ("glue", "glue_recursively"):
+        b = ctx.body("fundamental_group::Boundary::<'a, T>::" + name)
+        for bi, t in b.calls("Option::<T>::unwrap"):
+            a = strip(norm(b.origin(t["args"][0]), g))
+            if not is_call(a, "DSet::op"):
+                continue
+            ch = strip(a[2][2])
+            from_map = contains(ch, lambda y: is_call(y, "Boundary::<'a, T>::opposite") or (y[0] == "field" and y[1][0] == "field" and False))
+            n += 1
+            if not from_map:
+                ctx.ob("T5-sentinel-not-unwrapped", b.name, "unwrap(op(.., %s))" % show(ch, 1)[:20], "ok", "the chamber is the caller's, not one read out of the ridge map", b.span_of(bi))
+                continue
+            fa = [atom_norm(x, g) for x in b.facts_at(bi)]
+            guarded = any(x[0] == "rel" and (implies(x, ("rel", "Ne", ch, ("int", 0))) or implies(x, ("rel", "Lt", ("int", 0), ch))) for x in fa)
+            ctx.ob("T5-sentinel-not-unwrapped", b.name, "unwrap(op(.., chamber from the ridge map))", "ok" if guarded else "violation",
+                   "a dominating test excludes the sentinel" if guarded else
+                   "ds.op(k, e).unwrap() of a chamber e read out of the opposite map: e is 0 (the sentinel of a chain closed by a glued mirror) for symbols with both mirror and non-mirror generators, and op(k, 0) is None - fundamental_group panics", b.span_of(bi))
+    ctx.floor("unwraps of ds.op in Boundary::glue / glue_recursively", n, 1)
+
+
 def run(ctx):
     g = ctx.facts.getters()
     closing_test(ctx, g)
+    sentinel_not_unwrapped(ctx, g)
     # (1) reducedness: T1 over the whole crate
     ctx.clauses.append("all returned words are freely reduced (T1, shared with C10)")
     n = t1_write_through(ctx, "T1-write-through", c10.FW, "w", c10.SAN)
